@@ -152,6 +152,10 @@ func startPortScanEngine(ctx context.Context, conf *packetScanConfig) error {
 	// BPF filter doesn't accept large list of port ranges
 	chunkSize := 200
 	for i := 0; i < len(conf.scanRange.Ports); i += chunkSize {
+		// the scan was cancelled: do not start the remaining passes
+		if ctx.Err() != nil {
+			return nil
+		}
 		end := i + chunkSize
 		if end > len(conf.scanRange.Ports) {
 			end = len(conf.scanRange.Ports)
